@@ -806,6 +806,7 @@ pub fn main(args: Args) {
     sus.sort_by_key(|s| s.i);
     let mut confirmed_sigs: BTreeMap<String, u64> = BTreeMap::new();
     let mut culprits: Vec<Json> = vec![];
+    let mut unreproduced_timeouts = 0u64;
     for s in &sus {
         let cspec = plan.spec(s.i);
         let stack = stage_str(&s.stage, "stack");
@@ -848,7 +849,15 @@ pub fn main(args: Args) {
         run.count("suspects_rerun_alone", 1);
         if same < 3 {
             run.count("suspects_not_reproduced", 1);
-            run.inconclusive(format!("case {} ({kind}, {}): {} reproduced only {same}/3 times alone", s.i, s.what, sig));
+            if s.what == "died" {
+                run.inconclusive(format!("case {} ({kind}, {}): {} reproduced only {same}/3 times alone", s.i, s.what, sig));
+            } else {
+                // a CPU-time overrun that does not come back with a 10x budget is no evidence of anything
+                // (seen on an overloaded machine: page-fault / reclaim time is charged to the process):
+                // inconclusive for this case only
+                unreproduced_timeouts += 1;
+                run.note(format!("case {} ({kind}): CPU budget overrun reproduced {same}/3 alone with the 10x budget — not judged", s.i));
+            }
             continue;
         }
         if matches!(s.death, Some(DeathKind::AllocFailure)) {
@@ -872,6 +881,9 @@ pub fn main(args: Args) {
         };
         run.violation(&sig, &what, case);
     }
+    if unreproduced_timeouts * 100 > plan.total() {
+        run.inconclusive(format!("{unreproduced_timeouts} of {} cases overran the CPU budget once and not when re-run alone (> 1%)", plan.total()));
+    }
     for (sig, n) in &confirmed_sigs {
         if *n > 1 {
             run.note(format!("{sig}: {} further culprits with the same signature were not re-run", n - 1));
@@ -887,7 +899,8 @@ pub fn main(args: Args) {
     run.set_extra("stacks", json!({"deciding": "8MiB", "reported_only": "2MiB"}));
     sub::cleanup_scratch();
 
-    let quick_default = args.get("inputs").is_none() && args.get("pathologies").is_none();
+    // the floors are those of the quick default budget; smaller development budgets are exempt
+    let quick_default = args.budget("inputs", 3000, 300_000) >= 3000 && args.budget("pathologies", 170, 2000) >= 170;
     if quick_default {
         run.finish(&[
             ("evaluations", 1000),
